@@ -263,7 +263,9 @@ def gen_rhythm_text(rng, depth=1):
         elif k < 0.76:
             parts.append(rng.choice(["l8", "l16", "l4"]))
         elif k < 0.86:
-            parts.append(rng.choice(["(v100)", "(v64)", "(o5)", "(q80)", "(l8)", "(v(127))", "(>)", "(c)", "(be)"]))
+            parts.append(rng.choice(["(v100)", "(v64)", "(o5)", "(q80)", "(l8)", "(v(127))", "(>)", "(c)", "(be)",
+                                    # nested parentheses INSIDE a protected span, followed by letters that have a rhythm definition
+                                    "(CH(10) o5c4)", "(v(100) c8 b)", "(KeyShift(1) s4 h)", "(o(4) b(8))", "((c) h m)"]))
         elif k < 0.92 and depth > 0:
             parts.append("[%s %s]" % (rng.choice(["2", "3", ""]), gen_rhythm_text(rng, depth - 1)))
         elif k < 0.96 and depth > 0:
